@@ -111,6 +111,8 @@ pub struct ConnRec {
     pub poisoned_since: Option<u64>,
     /// dead through something a closure did (judged against the invocation time of a get)
     pub dead_since: Option<u64>,
+    /// simulation step at which a closure panicked on it (mutex poisoned from then on)
+    pub poisoned_step: Option<u64>,
     pub dead_cause: &'static str,
     /// the backend told the pool's own check that the connection is broken / invalid
     pub reported_dead: Option<u64>,
@@ -152,6 +154,8 @@ pub struct GetRec {
     /// idle connections at invocation: (dead, live)
     pub idle_dead: u32,
     pub idle_live: u32,
+    /// last step at which a blocking job spawned by this get acquired a connection's mutex
+    pub last_lock_step: Option<u64>,
 }
 
 #[derive(Clone, Copy, Debug, PartialEq, Eq)]
@@ -180,6 +184,7 @@ pub struct BWorld {
     pub gets: Vec<GetRec>,
     pub phase: BTreeMap<usize, Phase>,
     pub worker_origin: BTreeMap<usize, Origin>,
+    pub site_log_pos: usize,
     pub last_run: usize,
     pub last_poison_seq: Option<u64>,
     pub draining: bool,
@@ -273,6 +278,7 @@ impl BWorld {
             }
             if cause == "closure_panic" {
                 let _ = c.poisoned_since.get_or_insert(seq);
+                let _ = c.poisoned_step.get_or_insert(engine::current_step());
             }
         }
         if cause == "closure_panic" {
@@ -757,7 +763,7 @@ fn begin_get(actor: usize, cancellable: bool, audit: bool) -> u32 {
         if any_dead {
             w.dead_then_get = true;
         }
-        w.gets.push(GetRec { actor, t0, cancellable, audit, connect_errs: 0, idle_dead, idle_live });
+        w.gets.push(GetRec { actor, t0, cancellable, audit, connect_errs: 0, idle_dead, idle_live, last_lock_step: None });
         let g = (w.gets.len() - 1) as u32;
         engine::log_event(&[420, actor as u64, g as u64]);
         g
@@ -792,8 +798,22 @@ fn judge_handout<B: Bk>(who: &str, g: u32, obj: &SyncWrapper<B::C>) -> u32 {
                     format!("get#{g} ({who}) handed out connection #{serial} which was dead before the get was invoked ({})", c.dead_cause),
                 );
             } else {
-                // became dead while this get was in flight (late closure): judged at its next hand-out
-                w.probe("handed_out_then_died_in_flight");
+                // became dead while this get was in flight (late closure): judged at its next
+                // hand-out – unless the get's own validity check locked the connection after the
+                // closure had panicked: a check that runs against a poisoned connection cannot
+                // have accepted it
+                let locked_after = match (c.poisoned_step, w.gets[g as usize].last_lock_step) {
+                    (Some(p), Some(l)) => l > p && !fresh,
+                    _ => false,
+                };
+                if locked_after {
+                    w.violate(
+                        "dead_connection_never_reissued",
+                        format!("get#{g} ({who}) handed out connection #{serial}: its recycle check took the connection's lock after a closure had panicked on it (mutex poisoned) and still accepted it"),
+                    );
+                } else {
+                    w.probe("handed_out_then_died_in_flight");
+                }
             }
         }
         if c.reported_dead.is_some() {
@@ -1182,6 +1202,17 @@ impl World for BHandle {
                 Decision::Run(a) | Decision::Cancel(a) | Decision::Spurious(a) => w.last_run = a,
                 _ => {}
             }
+            // which get's jobs acquired a connection mutex in this step
+            let new = engine::site_log_since(w.site_log_pos);
+            w.site_log_pos += new.len();
+            let lock_site = engine::site_index("sync.interact.lock").unwrap() as u16;
+            for (step, actor, site) in new {
+                if site == lock_site {
+                    if let Some(Origin::Get(g)) = w.worker_origin.get(&actor).copied() {
+                        w.gets[g as usize].last_lock_step = Some(step);
+                    }
+                }
+            }
             w.pending_violation.take()
         })
     }
@@ -1280,6 +1311,7 @@ fn run_generic<B: Bk>(sc: &BScenario, replay: Option<Vec<Decision>>, trace: bool
             gets: Vec::new(),
             phase: BTreeMap::new(),
             worker_origin: BTreeMap::new(),
+            site_log_pos: 0,
             last_run: CONTROLLER,
             last_poison_seq: None,
             draining: false,
